@@ -33,6 +33,8 @@
 //	ResolveContext    func(*resolve.Context)       runs on the resolve.Context of every execution (SetResponseCache, LoaderHooks,
 //	                                               ExecutionOptions, RateLimiter ...) — via the verif accessor engine.VerifWithResolveContext
 //	ExecOptions       []engine.ExecutionOptions    appended to every Execute (WithAuthorizer, WithAdditionalHttpHeaders ...)
+//	DataSources       func(ctx, client) ([]plan.DataSource, error)  replaces the data sources of the router config (own supergraphs
+//	                                               with ExternalFieldNames/@requires; example: harness/internal/minifed)
 //
 // Faults (Action.Fault): FaultNone, FaultTransport (RoundTrip returns an error), FaultStatus500HTML, FaultEmptyBody (200 ""),
 // FaultNonJSON (200 text), FaultErrorsNoData (200 {"errors":[..]}), FaultDataNull (200 {"data":null}), FaultEntitiesShort (the
@@ -178,6 +180,12 @@ type Options struct {
 	PostProcessor         []postprocess.ProcessorOption
 	ResolveContext        func(*resolve.Context)
 	ExecOptions           []engine.ExecutionOptions
+	// DataSources, if set, REPLACES the data sources built from RouterConfigJSON (which then only has to carry the
+	// client schema, field configurations and the subgraph id/name list): for supergraphs the example factory
+	// cannot express (plan.DataSourceMetadata with ExternalFieldNames, @requires ...). Build the data sources with
+	// the given client (graphql_datasource.NewFactory(ctx, client, ...)) so that every request goes through the
+	// recording RoundTripper; route their URL hosts with Handlers. See harness/internal/minifed for an example.
+	DataSources func(ctx context.Context, client *http.Client) ([]plan.DataSource, error)
 }
 
 type Env struct {
@@ -232,6 +240,14 @@ func New(o Options) (*Env, error) {
 	if err != nil {
 		cancel()
 		return nil, fmt.Errorf("fedenv: engine configuration: %w", err)
+	}
+	if o.DataSources != nil {
+		ds, err := o.DataSources(ctx, e.Client)
+		if err != nil {
+			cancel()
+			return nil, fmt.Errorf("fedenv: data sources: %w", err)
+		}
+		conf.SetDataSources(ds)
 	}
 	if o.EnableMultiFetch {
 		conf.EnableMultiFetch()
